@@ -100,3 +100,118 @@ def reimage_bonds(ctx, case):
 
 
 contract("C11", "mdtraj/core/trajectory.py", "Trajectory.make_molecules_whole|image_molecules", cases=CASES, replay="image", covers=["first-call", "second-call"])(reimage_bonds)
+
+
+# =====================================================================================================
+# the Cython kernels make_whole / whole_molecules / wrap_mols (mdtraj/geometry/src/image_molecules.pxi), extracted mechanically
+# (mdvc/decython.py states exactly what the extraction drops) and executed on symbolic positions and cells
+PXI = "mdtraj/geometry/src/image_molecules.pxi"
+
+
+def _load_pxi(ctx, names):
+    import os
+    from mdvc import decython, npobj
+
+    ctx.interp.import_models["numpy"] = npobj.NumpyO()
+    text = open(os.path.join(ctx.interp.repo, PXI)).read()
+    src, dropped = decython.extract(text, names)
+    mod = ctx.interp.load_source("image_molecules_pxi", src, os.path.join(ctx.interp.repo, PXI))
+    mod.globals["roundf"] = lambda x: round(x) if core.is_sym(x) else float(round(x))
+    import math
+
+    def floorf(x):
+        if not core.is_sym(x):
+            return float(math.floor(x))
+        n = z3.Int(core.fresh_name("flr"))
+        r = z3.ToReal(n)
+        ctx.ex.assume(z3.And(r <= core.rterm(x), core.rterm(x) < r + 1))
+        ctx.ex.path.ghost.setdefault("floor_witness", []).append((core.rterm(x), n))
+        return core.SInt(n)
+    mod.globals["floorf"] = floorf
+    return mod, dropped
+
+
+BOND_ORDERS = {"chain": [(0, 1), (1, 2), (2, 3)], "branched": [(0, 1), (0, 2), (2, 3)], "two-molecules": [(0, 1), (2, 3)]}
+
+
+def make_whole(ctx, case):
+    """make_whole on one frame, bonds sorted by first atom with every parent numbered before its children (the documented input
+    form; other numberings are a recorded finding), positions and a lower-triangular cell symbolic:
+       every atom is moved by an integer combination of the cell vectors (explicit witnesses: the three roundings of its bond),
+       atoms that are never the second atom of a bond are not moved, the cell is not modified, and afterwards every bond vector
+       lies in the centred cell: |d_z| <= c_z/2, |d_y| <= b_y/2, |d_x| <= a_x/2 (its minimum-image representative for a reduced cell)"""
+    import numpy as np
+    from mdvc import npobj
+    from mdvc.core import rterm
+
+    bonds = BOND_ORDERS[case]
+    mod, dropped = _load_pxi(ctx, ["make_whole"])
+    A = 4
+    X = [[ctx.real(f"x{a}_{k}") for k in range(3)] for a in range(A)]
+    B = [[ctx.real(f"b{r}{k}") for k in range(3)] for r in range(3)]
+    ctx.assume(B[0][1] == 0, B[0][2] == 0, B[1][2] == 0, B[0][0] > 0, B[1][1] > 0, B[2][2] > 0)
+    pos = npobj.oarr((A, 3), lambda a, k: X[a][k])
+    box = npobj.oarr((3, 3), lambda r, k: B[r][k])
+    out = ctx.call(mod.globals["make_whole"], pos, box, np.array(bonds, dtype=np.int32))
+    ctx.ensure("no-exception", not out.raised)
+    if out.raised:
+        return
+    ctx.cover("returned")
+    wit = [z3.ToReal(n) for (_t, n) in ctx.ex.path.ghost.get("round_witness", [])]
+    raw = ctx.ex.path.ghost.get("round_witness", [])
+    # per bond the code rounds five distinct quotients, in this order: delta_z/c_z (used), (delta_y-off_y)/b_y (used), the same with
+    # the updated off_y (multiplied by b_z = 0), (delta_x-off_x)/a_x (used), the same with the updated off_x (multiplied by a_y = a_z = 0)
+    ctx.ensure("five-distinct-roundings-per-bond", len(wit) == 5 * len(bonds))
+    if len(wit) != 5 * len(bonds):
+        return
+    V = [[rterm(B[r][k]) for k in range(3)] for r in range(3)]
+    half = z3.RealVal("1/2")
+    WBdiv = ctx.lemma("WBdiv:|n-t|<=1/2,t*B=r,B>0=>|r-n*B|<=B/2", 4, lambda n, t, Bv, r: z3.Implies(
+        z3.And(n - t <= half, t - n <= half, t * Bv == r, Bv > 0), z3.And(r - n * Bv <= Bv / 2, n * Bv - r <= Bv / 2)))
+    moved = {}
+    cur = {a: [rterm(X[a][k]) for k in range(3)] for a in range(A)}
+    for j, (a1, a2) in enumerate(bonds):
+        n3, n2, n1 = wit[5 * j], wit[5 * j + 1], wit[5 * j + 3]
+        t3, t2, t1 = raw[5 * j][0], raw[5 * j + 1][0], raw[5 * j + 3][0]
+        d = [cur[a2][k] - cur[a1][k] for k in range(3)]
+        WBdiv(n3, t3, V[2][2], d[2])
+        WBdiv(n2, t2, V[1][1], d[1] - n3 * V[2][1])
+        WBdiv(n1, t1, V[0][0], d[0] - n3 * V[2][0] - n2 * V[1][0])
+        cur[a2] = [cur[a2][k] - n3 * V[2][k] - n2 * V[1][k] - n1 * V[0][k] for k in range(3)]
+        moved[a2] = True
+    for a in range(A):
+        for k in range(3):
+            ctx.ensure(f"atom{a}[{k}]=old-position-minus-integer-combination-of-the-cell-vectors" if a in moved else f"atom{a}[{k}]-not-moved(never-a-second-atom)",
+                       rterm(pos[a][k]) == cur[a][k])
+    for (a1, a2) in bonds:
+        d = [rterm(pos[a2][k]) - rterm(pos[a1][k]) for k in range(3)]
+        for k in (2, 1, 0):
+            ctx.ensure(f"bond({a1},{a2}):component[{k}]-within-half-the-cell-diagonal", z3.And(d[k] <= V[k][k] / 2, -d[k] <= V[k][k] / 2))
+    ctx.ensure("cell-not-modified", all(box[r][k] is B[r][k] for r in range(3) for k in range(3)))
+
+
+contract("C11", PXI, "make_whole", cases=list(BOND_ORDERS), replay="image", covers=["returned"], max_paths=50)(make_whole)
+
+
+def whole_molecules(ctx, case=None):
+    """whole_molecules(xyz, box, sorted_bonds): frame i is made whole with ITS OWN cell (two frames)"""
+    import numpy as np
+    from mdvc import npobj
+
+    mod, dropped = _load_pxi(ctx, ["whole_molecules"])
+    calls = []
+    mod.globals["make_whole"] = lambda p, b, s: calls.append((p, b, s))
+    xyz = npobj.oarr((2, 3, 3), lambda f, a, k: ctx.real(f"x{f}_{a}_{k}"))
+    box = npobj.oarr((2, 3, 3), lambda f, r, k: ctx.real(f"b{f}_{r}{k}"))
+    bonds = np.array([[0, 1], [1, 2]], dtype=np.int32)
+    out = ctx.call(mod.globals["whole_molecules"], xyz, box, bonds)
+    ctx.ensure("no-exception", not out.raised)
+    if out.raised:
+        return
+    ctx.cover("returned")
+    ctx.ensure("one-call-per-frame-with-that-frame's-positions-and-cell", len(calls) == 2 and all(
+        np.shares_memory(calls[f][0], xyz[f]) and calls[f][0].shape == (3, 3) and all(calls[f][1][r][k] is box[f][r][k] for r in range(3) for k in range(3)) and calls[f][2] is bonds
+        for f in range(2)))
+
+
+contract("C11", PXI, "whole_molecules", replay="image", covers=["returned"])(whole_molecules)
